@@ -107,9 +107,15 @@ def gen_data(rng, depth, leaves, ho):
     return f"(ch {gen_data(rng, d, leaves, ho)})"
 
 
+FUN_INPUTS = []     # numbered inputs used as functions (set per case by gen_expr_case)
+
+
 def gen_fun(rng, depth, leaves):
     """an expression of type A ** A"""
     r = rng.random()
+    if FUN_INPUTS and rng.random() < 0.3:
+        # a function-valued input: one Source object, possibly passed to several operations
+        return str(rng.choice(FUN_INPUTS))
     if depth <= 0 or r < 0.45:
         return rng.choice(["f", "f2", "f", "c", "cid", "fb", "ch"])
     d = depth - 1
@@ -192,7 +198,11 @@ def gen_expr_case(rng):
     leaves = list(range(1, k + 1))
     ho = rng.random() < 0.75
     n = 1 if rng.random() < 0.7 else rng.randint(2, 3)
+    nf = rng.choice([0, 0, 1, 1, 2]) if ho else 0
+    FUN_INPUTS[:] = list(range(k + 1, k + nf + 1))
     exprs = [strip(gen_data(rng, rng.randint(1, 4), leaves, ho)) for _ in range(n)]
+    FUN_INPUTS[:] = []
+    k += nf
     return {"kind": "expr", "n_inputs": k, "exprs": exprs, "primitive": rng.random() < 0.85,
             "preadd": rng.random() < 0.35, "preadd_seed": rng.randrange(10 ** 6),
             "flags": gen_flags(rng)}
